@@ -19,7 +19,11 @@ TECHNIQUE = ('stateful fuzzing with an exact reference-count oracle on the sanit
              '(read from __getstate__); histories include replaces, unlinks, failing calls (missing keys, '
              'unusable keys, comparisons that raise at a generated index), set algebra whose results stay '
              'alive, conflict merges, lazy sequences and iterators, pickling, eviction in a mini-ZODB '
-             'connection, clear and destruction; ASan/UBSan + asserts turn bad memory accesses into crashes')
+             'connection, clear and destruction; operators | & -, leaf states with an unusable item, merges that '
+             'succeed on states carrying a successor link (the successor node\'s reference count must not move), '
+             'and a closing sweep of range searches bounded by the first / last key of every leaf; read-only calls '
+             'must leave the reference counts of all nodes unchanged; ASan/UBSan + asserts turn bad memory accesses '
+             'into crashes')
 RULE = ('a case is a configuration + history.  Non-trivial: it contains at least one failing call, at least one '
         'replace when the container is a mapping, and at least one leaf unlink when it is a tree.  Distinct = '
         'distinct case JSON.')
@@ -72,7 +76,8 @@ def _cases(shard):
                 op('algebra', st.sampled_from(['union', 'intersection', 'difference', 'or', 'and', 'sub']), st.lists(K, max_size=8),
                    st.sampled_from(['Set', 'TreeSet', 'list'] + (['Bucket', 'BTree'] if is_map else [])), boom),
                 op('merge', st.lists(K, max_size=4), st.lists(K, max_size=4), st.lists(K, max_size=4), boom),
-                op('pickle'), op('badkey'), op('clear'), op('copy'), op('delrun', K, st.integers(2, 6)),
+                op('merge_ok', st.lists(K, min_size=1, max_size=5), K, K, st.booleans(), st.integers(1, 3)),
+                op('pickle'), op('badkey'), op('clear'), op('copy'), op('delrun', K, st.integers(2, 6)), op('edgesweep'),
                 op('delrun', K, st.integers(2, 6)),
                 op('badstate', st.lists(K, min_size=1, max_size=6), st.integers(0, 5), st.booleans())]
         hist = draw(st.lists(st.one_of(*ops), min_size=4, max_size=45))
@@ -82,7 +87,8 @@ def _cases(shard):
         cfg = {'fam': fam, 'kind': kind, 'impl': 'c'}
         if kind in F.TREE_KINDS:
             cfg['sizes'] = sizes
-        return {'cfg': cfg, 'ops': pre + hist, 'end': draw(st.sampled_from(['destroy', 'evict', 'destroy']))}
+        # every history ends with a sweep of range searches whose bounds are the first / last key of every leaf
+        return {'cfg': cfg, 'ops': pre + hist + [['edgesweep']], 'end': draw(st.sampled_from(['destroy', 'evict', 'destroy']))}
 
     return case()
 
@@ -95,7 +101,7 @@ def replay(case, ctx):
     run_case(case, ctx)
 
 
-READONLY = ('get', 'in', 'keys', 'keysx', 'minKey', 'maxKey', 'cursor', 'values', 'items', 'pickle', 'badstate')
+READONLY = ('get', 'in', 'keys', 'keysx', 'minKey', 'maxKey', 'cursor', 'values', 'items', 'pickle', 'badstate', 'edgesweep')
 
 
 def _node_refs(t, w):
@@ -481,6 +487,46 @@ def _step(w, t, klass, op, alive, stats, classes):
         finally:
             P.arm(False)
             del so, sc, sn
+    elif name == 'merge_ok':
+        # a merge that SUCCEEDS (disjoint inserts above the smallest key), on states that carry a successor
+        # link, repeated: the successor bucket's reference count must come back to what it was
+        leaf = F.cls(w.fam, F.leaf_kind(w.kind), 'c')
+        base = sorted(set(op[1]))
+        x, y = op[2], op[3]
+        vals = {}
+
+        def state(ns, nxt):
+            data = []
+            for a in sorted(set(ns)):
+                data.append(w.K(a))
+                if w.is_map:
+                    if a not in vals:
+                        # object values: plain ints (the C merge orders values with '<', open finding F27)
+                        vals[a] = (a % 3) if w.oval else w.V(a % 3)
+                    data.append(vals[a])
+            return (tuple(data), nxt) if nxt is not None else (tuple(data),)
+        if x != y and x not in base and y not in base and x > base[0] and y > base[0]:
+            nxt = leaf() if op[4] else None
+            before = sys.getrefcount(nxt) if nxt is not None else 0
+            so, sc, sn = state(base, nxt), state(base + [x], nxt), state(base + [y], nxt)
+            mid = sys.getrefcount(nxt) if nxt is not None else 0
+            for _ in range(op[5]):
+                r = leaf()._p_resolveConflict(so, sc, sn)
+                got = sorted(k.n if w.okey else k for k in r[0][::2 if w.is_map else 1])
+                if got != sorted(set(base + [x, y])):
+                    raise Violation('merge of disjoint inserts returned keys %r' % (got,), {'what': 'merge-result'})
+                del r
+                if nxt is not None and sys.getrefcount(nxt) != mid:
+                    raise Violation('%r: a successful merge of states with a successor link changed the successor '
+                                    'bucket\'s reference count from %d to %d' % (op, mid, sys.getrefcount(nxt)),
+                                    {'what': 'node-refcount', 'op': 'merge_ok'})
+            del so, sc, sn
+            if nxt is not None and sys.getrefcount(nxt) != before:
+                raise Violation('%r: after the merge states are gone the successor bucket has %d references, had %d'
+                                % (op, sys.getrefcount(nxt), before), {'what': 'node-refcount', 'op': 'merge_ok'})
+            del nxt
+            classes.append('merge_ok:with_next' if op[4] else 'merge_ok')
+        vals.clear()
     elif name == 'pickle':
         b = pickle.dumps(t, 2)
         c = pickle.loads(b)
@@ -526,6 +572,35 @@ def _step(w, t, klass, op, alive, stats, classes):
             stats['fail'] += 1
             classes.append('badstate:rejected')
         del x, data
+    elif name == 'edgesweep':
+        # structure-aware bounds: the first and last key of every leaf, as lower and as upper bound, with all
+        # four exclusion-flag combinations (these are the bounds that make a search step to a neighbouring leaf)
+        if w.is_tree:
+            wk = walker.walk(t, w.is_map, check=False)
+            edges = []
+            for lf in wk.leaves:
+                if lf.keys:
+                    edges += [lf.keys[0], lf.keys[-1]]
+            del wk
+        else:
+            ks = list(t.keys())
+            edges = ks[:1] + ks[-1:]
+            del ks
+        for k in edges:
+            for xa in (False, True):
+                for xb in (False, True):
+                    r = t.keys(k, None, xa, xb)
+                    len(r)
+                    r = t.keys(None, k, xa, xb)
+                    len(r)
+                    del r
+            try:
+                t.maxKey(k)
+                t.minKey(k)
+            except ValueError:
+                pass
+        del edges
+        k = None
     elif name == 'delrun':
         # delete a run of neighbouring keys: empties and unlinks whole leaves
         for n in range(op[1], op[1] + op[2]):
